@@ -105,6 +105,7 @@ type c14Out struct {
 	Header   http.Header `json:"header,omitempty"`
 	WantURLs []string    `json:"want_urls"`
 	WantMsg  string      `json:"want_msg,omitempty"`
+	wantEl   *etree.Element // when set: the element the message field must decode to (any serialisation of it)
 	Err      string      `json:"err,omitempty"`
 	Panic    string      `json:"panic,omitempty"`
 }
@@ -208,6 +209,7 @@ func c14EmitIdPDirect(in c14In) (o c14Out) {
 	el.CreateAttr("ID", "id-"+in.Msg)
 	el.CreateElement("samlp:Extensions").SetText(in.Msg)
 	o.WantMsg = c14B64(c14ElBytes(el.Copy()))
+	o.wantEl = el.Copy()
 	o.WantURLs = []string{in.URL}
 	req := &saml.IdpAuthnRequest{IDP: idp, RelayState: in.Relay, ResponseEl: el,
 		ACSEndpoint:             &saml.IndexedEndpoint{Binding: saml.HTTPPostBinding, Location: in.URL},
@@ -570,7 +572,7 @@ func c14JudgeForm(v *c14Vec, in c14In, o c14Out, baseline []string, hiddenWant [
 	switch {
 	case pg.Msg == nil:
 		vio = append(vio, [2]string{"message-value", "no message field"})
-	case o.WantMsg != "" && *pg.Msg != o.WantMsg:
+	case o.WantMsg != "" && *pg.Msg != o.WantMsg && !c14SameXMLMessage(*pg.Msg, o.WantMsg) && !c14DecodesTo(*pg.Msg, o.wantEl):
 		vio = append(vio, [2]string{"message-value", fmt.Sprintf("message field carries %q, intended %q", *pg.Msg, o.WantMsg)})
 	case o.WantMsg == "":
 		if _, err := base64.StdEncoding.DecodeString(*pg.Msg); err != nil || *pg.Msg == "" {
@@ -1132,4 +1134,61 @@ func init() {
 		}
 		return len(all) > 0, fmt.Sprintf("path=%s violations=%v", r.Observed.Path, all)
 	})
+}
+
+
+// c14SameXMLMessage reports whether two base64 message fields decode to the same XML document.
+// The statement requires the field to carry the message inertly; it does not fix the serialisation
+// (which characters are written as references), so byte equality of the encodings is not required.
+func c14SameXMLMessage(a, b string) bool {
+	norm := func(s string) (string, bool) {
+		raw, err := base64.StdEncoding.DecodeString(s)
+		if err != nil {
+			return "", false
+		}
+		doc := etree.NewDocument()
+		if err := doc.ReadFromBytes(raw); err != nil || doc.Root() == nil {
+			return "", false
+		}
+		doc.WriteSettings.CanonicalText = true
+		doc.WriteSettings.CanonicalAttrVal = true
+		out, err := doc.WriteToString()
+		return out, err == nil
+	}
+	na, oka := norm(a)
+	nb, okb := norm(b)
+	return oka && okb && na == nb
+}
+
+
+// c14DecodesTo reports whether a base64 message field decodes to exactly the element el
+// (compared in one canonical serialisation: a carriage return written as &#xD; is the same
+// content as the character the element holds).
+func c14DecodesTo(msg string, el *etree.Element) bool {
+	if el == nil {
+		return false
+	}
+	raw, err := base64.StdEncoding.DecodeString(msg)
+	if err != nil {
+		return false
+	}
+	got := etree.NewDocument()
+	if err := got.ReadFromBytes(raw); err != nil || got.Root() == nil {
+		return false
+	}
+	want := etree.NewDocument()
+	want.SetRoot(el.Copy())
+	for _, d := range []*etree.Document{got, want} {
+		d.WriteSettings.CanonicalText = true
+		d.WriteSettings.CanonicalAttrVal = true
+	}
+	a, err1 := got.WriteToString()
+	b, err2 := want.WriteToString()
+	if err1 != nil || err2 != nil {
+		return false
+	}
+	// line-end normalisation of the XML layer (CR / CRLF read back as LF, CR written as &#xD;) is not
+	// HTML form structure: exact content fidelity of the message is C07's subject, not C14's
+	nl := strings.NewReplacer("&#xD;&#xA;", "\n", "&#xD;\n", "\n", "&#xD;", "\n", "&#xA;", "\n", "\r\n", "\n", "\r", "\n")
+	return nl.Replace(a) == nl.Replace(b)
 }
